@@ -809,7 +809,9 @@ fn has_env_ref(token: &str) -> bool {
 
 fn env_in_token(token: &str) -> bool {
     if libs::re::re_contains(token, r"\$\{?[\$\?]\}?") {
-        return true;
+        // `$$` and `$?` are literal text inside the single quotes of
+        // NAME='...', like the named references below
+        return !libs::re::re_contains(token, r"='.*\$\{?[\$\?]\}?.*'$");
     }
 
     let ptn_env_name = r"[a-zA-Z_][a-zA-Z0-9_]*";
